@@ -324,6 +324,15 @@ func (w *world) absorb(s *vsess, kind string, res *imapc.Result) {
 				return
 			}
 
+			// The renumbering by a late arrival is what C01 decides (and records as a finding). In the worlds of
+			// the other checks it is not their property that fails: note it, rebuild the mirror, carry on.
+			if k == "renumbered-by-late-arrival" && w.id != "C01" {
+				w.r.Count("late_arrival_renumberings_seen_(finding_of_C01)", 1)
+				w.resync(s)
+
+				return
+			}
+
 			if k == "renumbered-by-late-arrival" && w.r.IsKnown(w.id+" probe renumbered-by-late-arrival") {
 				w.r.Violate(w.id+" probe renumbered-by-late-arrival", what, w.label, map[string]any{"mirror": s.mir.summary(), "response": u.String(), "history": w.getLog()})
 				w.r.Count("known_finding_resyncs", 1)
@@ -500,6 +509,14 @@ func (w *world) probe(s *vsess, withMarker bool) bool {
 		sig := w.id + " probe renumbered-by-late-arrival"
 		what := "a message whose EXISTS arrived after a later UID had been announced was inserted in front of announced messages: sequence numbers the client knows now denote other messages, with only an EXISTS sent"
 
+		if w.id != "C01" {
+			w.r.Count("late_arrival_renumberings_seen_(finding_of_C01)", 1)
+			s.mir.reset(len(rows))
+			w.absorbQuiet(s, "UID FETCH", res)
+
+			return !w.isFailed()
+		}
+
 		if !w.r.IsKnown(sig) {
 			return mismatch("renumbered-by-late-arrival", what)
 		}
@@ -673,7 +690,7 @@ func (w *world) close() {
 
 // ---- command generation over a mirror ---------------------------------------------------
 
-var viewFlagPool = []string{`\Seen`, `\Flagged`, `\Answered`, `\Draft`, `\Deleted`}
+var viewFlagPool = []string{`\Seen`, `\Flagged`, `\Answered`, `\Draft`, `\Deleted`, `$Forwarded`, `Forwarded`}
 
 func pickViewFlags(rng *rand.Rand, allowEmpty bool) []string {
 	n := rng.Intn(3)
